@@ -15,6 +15,8 @@ func runC02(c *core.Ctx) {
 		c.Clause("C02.1 a newly recorded vote implies the candidate's log is at least as up-to-date (E3)")
 		h.voteUpToDate("C02.1 up-to-date-check", vt)
 	}
+	// the check compares against the cached last index/term: the cache follows every log mutation
+	h.storageCacheCoherence("C02.1b storage-cache")
 	c.Clause("C02.2 leader commit rule: only onMajorityCommit, value of majorityMatchIndex, v>commitIndex && v>=startIndex, startIndex=lastLogIndex+1 taken before the no-op")
 	h.leaderCommitRule("C02.2 leader-commit")
 	c.Clause("C02.3 majority computed over voters of the latest configuration; quorum element of the descending order; single-voter shortcut guarded")
